@@ -63,7 +63,65 @@ def import_hvsrpy():
     import logging
     logging.getLogger("hvsrpy").setLevel(logging.CRITICAL)
     poison_uninitialised_memory()
+    adversarial_object_identities()
     return hvsrpy
+
+
+class SimId:
+    """Stands in for the builtin ``id`` inside the hvsrpy modules.  Python only promises that identities are unique
+    among LIVE objects; which address a new object gets is the allocator's business, i.e. nondeterminism.  This
+    allocator is deterministic and as adversarial as the promise allows: the identity of a dead object is handed to the
+    very next object that is asked for its identity (LIFO).  Code that is correct for every legal allocator cannot
+    tell the difference."""
+
+    def __init__(self):
+        import builtins
+        import weakref
+        self._real, self._ref = builtins.id, weakref.ref
+        self.live, self.free, self.next, self.reused = {}, [], 1 << 44, 0
+
+    def __call__(self, obj):
+        rid = self._real(obj)
+        ent = self.live.get(rid)
+        if ent is not None and ent[1]() is obj:
+            return ent[0]
+        if self.free:
+            sid = self.free.pop()
+            self.reused += 1
+        else:
+            sid = self.next
+            self.next += 16
+        try:
+            wr = self._ref(obj, lambda _r, rid=rid, sid=sid: self._dead(rid, sid))
+        except TypeError:                                  # not weak-referenceable: keep the real identity
+            if sid == self.next - 16:
+                self.next -= 16
+            else:
+                self.free.append(sid)
+                self.reused -= 1
+            return rid
+        self.live[rid] = (sid, wr)
+        return sid
+
+    def _dead(self, rid, sid):
+        ent = self.live.get(rid)
+        if ent is not None and ent[0] == sid:
+            del self.live[rid]
+        self.free.append(sid)
+
+
+SIM_ID = None
+
+
+def adversarial_object_identities():
+    global SIM_ID
+    import sys
+    if SIM_ID is None:
+        SIM_ID = SimId()
+    for name, m in list(sys.modules.items()):
+        if name == "hvsrpy" or name.startswith("hvsrpy."):
+            if m is not None and "id" not in m.__dict__:
+                m.id = SIM_ID
 
 
 class _PoisonNp:
